@@ -387,6 +387,7 @@ func main() {
 	reps := 1
 	if *flagTier == "thorough" {
 		reps = 3
+		all = append(all, "slow-origin")
 	}
 	for _, d := range all {
 		for rep := 0; rep < reps; rep++ {
